@@ -170,6 +170,10 @@ func (x *Exec) dispatch(st *State, fr *Frame, dst ssa.Value, c *ssa.CallCommon, 
 		return
 	}
 	key := x.V.P.FuncKey(callee)
+	if fc, ok := x.V.C.Funcs[key]; ok && fc.Has("inline") && callee.Blocks != nil {
+		x.inline(st, fr, dst, callee, args, freeVars, isDefer)
+		return
+	}
 	if fc, ok := x.V.C.Funcs[key]; ok && !(x.inlineSelf(callee)) {
 		x.applyContract(st, fr, dst, callee, fc, args, freeVars, pos, false)
 		return
@@ -360,6 +364,23 @@ func (x *Exec) calleeEnv(st *State, callee *ssa.Function, args []*Val, freeVars 
 			env.Vars[p.Name()] = args[k]
 		}
 	}
+	if len(callee.Params) == 0 && callee.Signature != nil {
+		off := 0
+		if r := callee.Signature.Recv(); r != nil {
+			off = 1
+			if len(args) > 0 {
+				env.Vars[r.Name()] = args[0]
+				env.Vars["recv"] = args[0]
+			}
+		}
+		ps := callee.Signature.Params()
+		for k := 0; k < ps.Len(); k++ {
+			if k+off < len(args) {
+				env.Vars[ps.At(k).Name()] = args[k+off]
+				env.Vars[fmt.Sprintf("arg%d", k)] = args[k+off]
+			}
+		}
+	}
 	for k, fv := range callee.FreeVars {
 		if k < len(freeVars) {
 			env.Vars["&"+fv.Name()] = freeVars[k]
@@ -387,7 +408,9 @@ func (x *Exec) applyContract(st *State, fr *Frame, dst ssa.Value, callee *ssa.Fu
 	old := copyHeap(st.Heap)
 	// havoc modifies
 	for _, cl := range fc.Of("modifies") {
-		x.havocModifies(st, env, cl)
+		if cl.Loop == 0 {
+			x.havocModifies(st, env, cl)
+		}
 	}
 	// results
 	sig := callee.Signature
@@ -429,6 +452,7 @@ func (x *Exec) applyContract(st *State, fr *Frame, dst ssa.Value, callee *ssa.Fu
 		st.Assume(x.V.evalBool(env2, cl.E))
 	}
 	x.bindResult(fr, dst, res)
+	st.setGhost("ncalls$"+name, Add(st.ghostInt("ncalls$"+name), IntLit(1)))
 	st.Trace = append(st.Trace, "call "+name)
 }
 
@@ -527,6 +551,21 @@ func (x *Exec) modItems(env *Env, cl *Clause) []modItem {
 			}
 			v := x.V.eval(env, e)
 			items = append(items, modItem{"G$wg", x.refOf(v)})
+		case strings.HasPrefix(it, "field("):
+			// whole heap family of one field of a struct type of this package: field(T.f)
+			inner := it[6 : len(it)-1]
+			parts := strings.SplitN(inner, ".", 2)
+			ns := x.V.namedByName(env.Pkg.Name() + "." + parts[0])
+			if ns == nil || len(parts) != 2 {
+				unsupportedf("modifies %s: unknown type", it)
+			}
+			ft := fieldTypeAt(ns, strings.Split(parts[1], "."))
+			var ls []leafInfo
+			leaves(ft, parts[1], &ls)
+			for _, l := range ls {
+				regSort(heapKeyField(ns, l.Path), ArrSort(SInt, l.Sort))
+				items = append(items, modItem{heapKeyField(ns, l.Path), nil})
+			}
 		case strings.HasPrefix(it, "ghost("):
 			items = append(items, modItem{"G$" + it[6:len(it)-1], nil})
 		case strings.HasPrefix(it, "global("):
@@ -737,7 +776,13 @@ func sortedHeld(st *State) []string {
 
 // checkFrame: everything outside the modifies clause is unchanged for objects allocated at entry.
 func (x *Exec) checkFrame(st *State, env *Env, pos token.Pos) {
-	if !x.FC.Has("modifies") {
+	claimed := false
+	for _, cl := range x.FC.Of("modifies") {
+		if cl.Loop == 0 {
+			claimed = true
+		}
+	}
+	if !claimed {
 		return // frame not claimed
 	}
 	oldEnv := *env
@@ -746,19 +791,27 @@ func (x *Exec) checkFrame(st *State, env *Env, pos token.Pos) {
 	oldEnv.Heap = x.Entry.OldHeap
 	var items []modItem
 	for _, cl := range x.FC.Of("modifies") {
-		items = append(items, x.modItems(&oldEnv, cl)...)
+		if cl.Loop == 0 {
+			items = append(items, x.modItems(&oldEnv, cl)...)
+		}
 	}
-	alloc0 := x.Entry.OldHeap["G$alloc"]
+	x.frameObls(st, items, x.Entry.OldHeap, 0, "frame", pos)
+}
+
+// frameObls: every family that differs from its value in `old` differs only at the listed indices
+// (objects allocated after `old` are exempt).
+func (x *Exec) frameObls(st *State, items []modItem, oldHeap map[string]*Term, oldEpoch int, prefix string, pos token.Pos) {
+	alloc0 := oldHeap["G$alloc"]
 	for _, f := range st.heapNames() {
 		cur := st.Heap[f]
-		old, ok := x.Entry.OldHeap[f]
+		old, ok := oldHeap[f]
 		if !ok {
-			old = Const(f+"@0", heapSorts[f])
+			old = Const(fmt.Sprintf("%s@%d", f, oldEpoch), heapSorts[f])
 		}
 		if cur == old {
 			continue
 		}
-		if f == "G$alloc" || strings.HasPrefix(f, "G$calls$") || strings.HasPrefix(f, "G$arg$") || strings.HasPrefix(f, "G$ret$") || strings.HasPrefix(f, "G$panicked$") || strings.HasPrefix(f, "G$visited$") || strings.HasPrefix(f, "G$spawned") {
+		if f == "G$alloc" || f == "G$wgmine" || strings.HasPrefix(f, "G$ncalls$") || strings.HasPrefix(f, "G$calls$") || strings.HasPrefix(f, "G$arg$") || strings.HasPrefix(f, "G$ret$") || strings.HasPrefix(f, "G$panicked$") || strings.HasPrefix(f, "G$visited$") || strings.HasPrefix(f, "G$spawned") {
 			continue
 		}
 		if x.V.isShared(f) {
@@ -783,7 +836,7 @@ func (x *Exec) checkFrame(st *State, env *Env, pos token.Pos) {
 		srt := heapSorts[f]
 		short := f
 		if !strings.HasPrefix(string(srt), "(Array") {
-			x.oblige(st, "frame", "frame:"+short, Eq(cur, old), pos, "modifies")
+			x.oblige(st, "frame", prefix+":"+short, Eq(cur, old), pos, "modifies")
 			continue
 		}
 		is, _ := arrParts(srt)
@@ -805,7 +858,7 @@ func (x *Exec) checkFrame(st *State, env *Env, pos token.Pos) {
 		for _, ix := range idxs {
 			hyp = append(hyp, Neq(r, ix))
 		}
-		x.oblige(st, "frame", "frame:"+short, Implies(And(hyp...), Eq(Select(cur, r), Select(old, r))), pos, "modifies")
+		x.oblige(st, "frame", prefix+":"+short, Implies(And(hyp...), Eq(Select(cur, r), Select(old, r))), pos, "modifies")
 	}
 }
 
@@ -842,26 +895,69 @@ func (x *Exec) loopHead(st *State, fr *Frame, l *Loop, from *ssa.BasicBlock) {
 	if back {
 		phase = "step"
 	}
+	if ri := x.autoRangeIndex(st, fr, l); ri != nil {
+		x.oblige(st, "inv", fmt.Sprintf("inv:loop%d:auto-rangeindex:%s", l.N, phase), ri, l.Pos, "-1 <= rangeindex < len")
+	}
 	for _, cl := range invs {
 		g := x.V.evalBool(env, cl.E)
 		x.oblige(st, "inv", fmt.Sprintf("inv:loop%d:%s:%s", l.N, cl.Label, phase), g, l.Pos, cl.Text)
 	}
+	var lmods []*Clause
+	if x.FC != nil {
+		for _, cl := range x.FC.Of("modifies") {
+			if cl.Loop == l.N {
+				lmods = append(lmods, cl)
+			}
+		}
+	}
 	if back {
-		// decreases
+		if len(lmods) > 0 {
+			for i := len(st.LoopSnaps) - 1; i >= 0; i-- {
+				if st.LoopSnaps[i].N == l.N {
+					x.frameObls(st, st.LoopSnaps[i].Items, st.LoopSnaps[i].Heap, st.LoopSnaps[i].Epoch, fmt.Sprintf("loopframe:loop%d", l.N), l.Pos)
+					break
+				}
+			}
+		}
 		st.Done = true
 		st.ExitKind = "cut"
 		return
 	}
 	// first arrival: havoc everything the loop may modify, then assume the invariant
-	x.havocLoop(st, fr, l)
+	if len(lmods) > 0 {
+		var items []modItem
+		for _, cl := range lmods {
+			items = append(items, x.modItems(env, cl)...)
+		}
+		x.havocLoopCellsOnly(st, fr, l)
+		for _, cl := range lmods {
+			x.havocModifies(st, env, cl)
+		}
+		st.LoopSnaps = append(st.LoopSnaps[:len(st.LoopSnaps):len(st.LoopSnaps)], loopSnap{l.N, items, copyHeap(st.Heap), st.Epoch})
+	} else {
+		x.havocLoop(st, fr, l)
+	}
 	env = x.envAt(st, fr)
+	if ri := x.autoRangeIndex(st, fr, l); ri != nil {
+		st.Assume(ri)
+	}
 	for _, cl := range invs {
 		st.Assume(x.V.evalBool(env, cl.E))
 	}
 	st.Trace = append(st.Trace, fmt.Sprintf("loop%d:head", l.N))
 }
 
-func (x *Exec) havocLoop(st *State, fr *Frame, l *Loop) {
+type loopSnap struct {
+	N     int
+	Items []modItem
+	Heap  map[string]*Term
+	Epoch int
+}
+
+func (x *Exec) havocLoopCellsOnly(st *State, fr *Frame, l *Loop) { x.havocLoopImpl(st, fr, l, true) }
+func (x *Exec) havocLoop(st *State, fr *Frame, l *Loop)          { x.havocLoopImpl(st, fr, l, false) }
+
+func (x *Exec) havocLoopImpl(st *State, fr *Frame, l *Loop, cellsOnly bool) {
 	// cells written in the loop
 	fams := map[string]bool{}
 	all := false
@@ -923,11 +1019,18 @@ func (x *Exec) havocLoop(st *State, fr *Frame, l *Loop) {
 					case "close":
 						fams["G$closed"] = true
 					case "append", "copy":
-						all = true
+						fams["G$alloc"] = true
+						for _, n := range st.heapNames() {
+							if strings.HasPrefix(n, "S$") {
+								fams[n] = true
+							}
+						}
 					}
 					continue
 				}
-				all = true
+				if !x.staticCallEffects(st, c, fams, 0) {
+					all = true
+				}
 			case *ssa.Send, *ssa.Select:
 				all = true
 			case *ssa.UnOp:
@@ -938,6 +1041,25 @@ func (x *Exec) havocLoop(st *State, fr *Frame, l *Loop) {
 				fams["G$alloc"] = true
 			}
 		}
+	}
+	if cellsOnly {
+		// heap effects are given by the loop-level modifies clause; allocation and ghost logs still move
+		keep := map[string]bool{}
+		for f := range fams {
+			if f == "G$alloc" {
+				keep[f] = true
+			}
+		}
+		if all {
+			keep["G$alloc"] = true
+			for _, n := range st.heapNames() {
+				if strings.HasPrefix(n, "G$calls$") || strings.HasPrefix(n, "G$arg$") || strings.HasPrefix(n, "G$ret$") || strings.HasPrefix(n, "G$panicked$") || strings.HasPrefix(n, "G$spawn") || strings.HasPrefix(n, "G$sent$") || strings.HasPrefix(n, "G$sends$") || strings.HasPrefix(n, "G$recv") {
+					keep[n] = true
+				}
+			}
+		}
+		fams = keep
+		all = false
 	}
 	if all || fams["*"] {
 		for _, n := range st.heapNames() {
@@ -987,10 +1109,284 @@ func (x *Exec) havocLoop(st *State, fr *Frame, l *Loop) {
 			if nx, ok := in.(*ssa.Next); ok {
 				if it := x.val(st, fr, nx.Iter); it != nil && it.Iter != nil && it.Iter.Visited != "" {
 					st.Heap[it.Iter.Visited] = Fresh("visited", heapSorts[it.Iter.Visited])
+					nv := Fresh("nvisited", SInt)
+					st.Assume(Ge(nv, IntLit(0)))
+					st.Heap[it.Iter.Visited+"$n"] = nv
 				}
 			}
 		}
 	}
+}
+
+// staticCallEffects adds the heap families a call inside a loop may modify; false = unknown (havoc all).
+func (x *Exec) staticCallEffects(st *State, c *ssa.CallCommon, fams map[string]bool, depth int) bool {
+	shared := func() {
+		// interference: monitored families and channel/waitgroup ghost state
+		for _, n := range st.heapNames() {
+			if x.V.isShared(n) || strings.HasPrefix(n, "G$calls$") || strings.HasPrefix(n, "G$arg$") || strings.HasPrefix(n, "G$ret$") || strings.HasPrefix(n, "G$panicked$") || strings.HasPrefix(n, "G$ncalls$") || strings.HasPrefix(n, "G$spawn") || strings.HasPrefix(n, "G$sen") || strings.HasPrefix(n, "G$recv") {
+				fams[n] = true
+			}
+		}
+		for _, n := range []string{"G$closed", "G$clen", "G$wg"} {
+			fams[n] = true
+		}
+		for tk, tc := range x.V.C.Types {
+			root := x.V.namedByName(tk)
+			if root == nil {
+				continue
+			}
+			for _, m := range tc.Monitors {
+				for f := range m.Guards {
+					ft := fieldTypeAt(root, []string{f})
+					var ls []leafInfo
+					leaves(ft, f, &ls)
+					for _, l := range ls {
+						regSort(heapKeyField(root, l.Path), ArrSort(SInt, l.Sort))
+						fams[heapKeyField(root, l.Path)] = true
+					}
+				}
+			}
+		}
+		fams["G$alloc"] = true
+	}
+	if c.IsInvoke() {
+		shared()
+		return true
+	}
+	callee := c.StaticCallee()
+	if callee == nil {
+		shared()
+		return true
+	}
+	full := callee.String()
+	switch {
+	case strings.HasPrefix(full, "(*sync."):
+		shared()
+		fams["G$wgmine"] = true
+		return true
+	}
+	key := x.V.P.FuncKey(callee)
+	fc, ok := x.V.C.Funcs[key]
+	if !ok {
+		fc, ok = x.V.C.Assumed[full]
+	}
+	if ok {
+		if !fc.Has("pure") {
+			shared()
+		}
+		fams["G$ncalls$"+callee.RelString(callee.Package().Pkg)] = true
+		regSort("G$ncalls$"+callee.RelString(callee.Package().Pkg), SInt)
+		for _, cl := range fc.Of("modifies") {
+			if cl.Loop != 0 {
+				continue
+			}
+			if !x.staticModFamilies(callee, cl, fams) {
+				return false
+			}
+		}
+		return true
+	}
+	if callee.Blocks != nil && callee.Package() != nil && strings.HasPrefix(callee.Package().Pkg.Path(), modulePath) && depth < 3 {
+		// would be inlined: scan its body
+		for _, b := range callee.Blocks {
+			for _, in := range b.Instrs {
+				switch i := in.(type) {
+				case *ssa.Store:
+					if _, ok := i.Addr.(*ssa.Alloc); ok {
+						continue
+					}
+					x.storeFamilies(i.Addr, fams)
+				case *ssa.MapUpdate:
+					mt := i.Map.Type().Underlying().(*types.Map)
+					hk, lk, vp := mapKeys(mt)
+					regMapSorts(mt)
+					fams[hk] = true
+					fams[lk] = true
+					var mls []leafInfo
+					leaves(mt.Elem(), "", &mls)
+					for _, ml := range mls {
+						fams[vp+"$"+ml.Path] = true
+					}
+				case *ssa.Call:
+					if bi, ok := i.Call.Value.(*ssa.Builtin); ok {
+						if bi.Name() == "close" {
+							fams["G$closed"] = true
+						} else if bi.Name() == "delete" || bi.Name() == "append" || bi.Name() == "copy" {
+							return false
+						}
+						continue
+					}
+					if !x.staticCallEffects(st, &i.Call, fams, depth+1) {
+						return false
+					}
+				case *ssa.Go, *ssa.Send, *ssa.Select, *ssa.Defer:
+					return false
+				case *ssa.MakeMap, *ssa.MakeChan, *ssa.MakeSlice, *ssa.MakeClosure, *ssa.Alloc, *ssa.MakeInterface:
+					fams["G$alloc"] = true
+				}
+			}
+		}
+		return true
+	}
+	// external without contract: assumed effect-free (listed as such when executed)
+	return true
+}
+
+// staticModFamilies resolves the heap families named by a modifies clause from types alone.
+func (x *Exec) staticModFamilies(callee *ssa.Function, cl *Clause, fams map[string]bool) bool {
+	pkg := callee.Package().Pkg
+	typeOfIdent := func(name string) types.Type {
+		sig := callee.Signature
+		if r := sig.Recv(); r != nil && r.Name() == name {
+			return r.Type()
+		}
+		for k := 0; k < sig.Params().Len(); k++ {
+			if sig.Params().At(k).Name() == name {
+				return sig.Params().At(k).Type()
+			}
+		}
+		for k := 0; k < sig.Results().Len(); k++ {
+			if sig.Results().At(k).Name() == name {
+				return sig.Results().At(k).Type()
+			}
+		}
+		if name == "result" && sig.Results().Len() == 1 {
+			return sig.Results().At(0).Type()
+		}
+		return nil
+	}
+	var typeOf func(e *Expr) types.Type
+	typeOf = func(e *Expr) types.Type {
+		switch e.Kind {
+		case "ident":
+			return typeOfIdent(e.Op)
+		case "sel":
+			bt := typeOf(e.Args[0])
+			if bt == nil {
+				return nil
+			}
+			if p := pointee(bt); p != nil {
+				bt = p
+			}
+			stt, ok := bt.Underlying().(*types.Struct)
+			if !ok {
+				return nil
+			}
+			for i := 0; i < stt.NumFields(); i++ {
+				if stt.Field(i).Name() == e.Op {
+					return stt.Field(i).Type()
+				}
+			}
+		case "index":
+			bt := typeOf(e.Args[0])
+			if bt == nil {
+				return nil
+			}
+			switch u := bt.Underlying().(type) {
+			case *types.Slice:
+				return u.Elem()
+			case *types.Map:
+				return u.Elem()
+			}
+		}
+		return nil
+	}
+	for _, it := range splitTop(cl.Text) {
+		switch {
+		case it == "nothing":
+		case strings.HasPrefix(it, "field("):
+			inner := it[6 : len(it)-1]
+			parts := strings.SplitN(inner, ".", 2)
+			ns := x.V.namedByName(pkg.Name() + "." + parts[0])
+			if ns == nil || len(parts) != 2 {
+				return false
+			}
+			ft := fieldTypeAt(ns, strings.Split(parts[1], "."))
+			var ls []leafInfo
+			leaves(ft, parts[1], &ls)
+			for _, l := range ls {
+				regSort(heapKeyField(ns, l.Path), ArrSort(SInt, l.Sort))
+				fams[heapKeyField(ns, l.Path)] = true
+			}
+		case strings.HasPrefix(it, "closed(") || strings.HasPrefix(it, "chan("):
+			fams["G$closed"] = true
+			fams["G$clen"] = true
+		case strings.HasPrefix(it, "wg("):
+			fams["G$wg"] = true
+			fams["G$wgmine"] = true
+		case strings.HasPrefix(it, "ghost("):
+			fams["G$"+it[6:len(it)-1]] = true
+		case strings.HasPrefix(it, "global("):
+			fams["V$"+pkg.Name()+"."+it[7:len(it)-1]+"$*"] = true
+		case strings.HasPrefix(it, "map("):
+			e, err := ParseExpr(it[4 : len(it)-1])
+			if err != nil {
+				return false
+			}
+			t := typeOf(e)
+			if t == nil {
+				return false
+			}
+			mt, ok := t.Underlying().(*types.Map)
+			if !ok {
+				return false
+			}
+			regMapSorts(mt)
+			hk, lk, vp := mapKeys(mt)
+			fams[hk] = true
+			fams[lk] = true
+			var mls []leafInfo
+			leaves(mt.Elem(), "", &mls)
+			for _, ml := range mls {
+				fams[vp+"$"+ml.Path] = true
+			}
+		default:
+			star := strings.HasSuffix(it, ".*")
+			e, err := ParseExpr(strings.TrimSuffix(it, ".*"))
+			if err != nil {
+				return false
+			}
+			if star {
+				t := typeOf(e)
+				if t == nil || pointee(t) == nil || namedStruct(pointee(t)) == nil {
+					return false
+				}
+				ns := namedStruct(pointee(t))
+				var ls []leafInfo
+				leaves(ns, "", &ls)
+				for _, l := range ls {
+					regSort(heapKeyField(ns, l.Path), ArrSort(SInt, l.Sort))
+					fams[heapKeyField(ns, l.Path)] = true
+				}
+				continue
+			}
+			// x.f.g: find the longest prefix that is a pointer to a named struct
+			var path []string
+			cur := e
+			done := false
+			for cur.Kind == "sel" {
+				path = append([]string{cur.Op}, path...)
+				bt := typeOf(cur.Args[0])
+				if bt != nil && pointee(bt) != nil && namedStruct(pointee(bt)) != nil {
+					ns := namedStruct(pointee(bt))
+					ft := fieldTypeAt(ns, path)
+					var ls []leafInfo
+					leaves(ft, strings.Join(path, "."), &ls)
+					for _, l := range ls {
+						regSort(heapKeyField(ns, l.Path), ArrSort(SInt, l.Sort))
+						fams[heapKeyField(ns, l.Path)] = true
+					}
+					done = true
+					break
+				}
+				cur = cur.Args[0]
+			}
+			if !done {
+				return false
+			}
+		}
+	}
+	return true
 }
 
 func (x *Exec) storeFamilies(addr ssa.Value, fams map[string]bool) {
@@ -1074,4 +1470,36 @@ func regMapSorts(mt *types.Map) {
 	for _, l := range ls {
 		regSort(vp+"$"+l.Path, ArrSort(SInt, ArrSort(ks, l.Sort)))
 	}
+}
+
+// autoRangeIndex: for `for i := range slice` loops go/ssa keeps a hidden index cell; its bounds are an
+// invariant of every such loop (proved like any other: init and step obligations).
+func (x *Exec) autoRangeIndex(st *State, fr *Frame, l *Loop) *Term {
+	if l.Header.Comment != "rangeindex.loop" {
+		return nil
+	}
+	var cell *Cell
+	var lenT *Term
+	for _, in := range l.Header.Instrs {
+		switch i := in.(type) {
+		case *ssa.Store:
+			if a, ok := i.Addr.(*ssa.Alloc); ok && a.Comment == "rangeindex" {
+				cell = x.cellOf[a]
+			}
+		case *ssa.BinOp:
+			if i.Op == token.LSS {
+				if v, ok := fr.Regs[i.Y]; ok && v.Term != nil {
+					lenT = v.Term
+				}
+			}
+		}
+	}
+	if cell == nil || lenT == nil {
+		return nil
+	}
+	cv, ok := st.Cells[cell]
+	if !ok || cv.Term == nil {
+		return nil
+	}
+	return And(Ge(cv.Term, IntLit(-1)), Lt(cv.Term, lenT), Ge(lenT, IntLit(0)))
 }
